@@ -1035,6 +1035,9 @@ const CRAFTED_JS: &[&str] = &[
   "foo(a_b, 1, c",
   "a_b",
   "",
+  // case changes around multi-byte letters (word splitting of `convert`), multi-byte at the end
+  "foo(a_bÉcДд, 1, c)",
+  "foo(a_приветМир, xÉ, ÉÉx)",
 ];
 
 struct Sources {
